@@ -56,6 +56,13 @@ Theorem C16_override_collision_refuted : exists ovs names, rename_injective_on o
 Proof. exact override_collision_refuted. Qed.
 Print Assumptions C16_override_collision_refuted.
 
+Theorem C16_override_module_collision_refuted : exists ovs n1 n2,
+  n1 <> n2 /\ fst (rename_class ovs (s2l "field_") n1) <> fst (rename_class ovs (s2l "field_") n2) /\
+  snd (rename_class ovs (s2l "field_") n1) = snd (rename_class ovs (s2l "field_") n2) /\
+  rename_injective_on ovs (s2l "field_") [n1; n2] = false.
+Proof. exact override_module_collision_refuted. Qed.
+Print Assumptions C16_override_module_collision_refuted.
+
 (* field_prefix: affects exactly the names that need a prefix *)
 Theorem C16_prefix_only_prefixes : forall v skip p1 p2,
   (needs_prefix v skip = false -> python_identifier v p1 skip = python_identifier v p2 skip) /\
